@@ -27,3 +27,4 @@ def rules(ctx):
     S.commit_mode_setter_rules(ctx)
     S.state_writer_rules(ctx)
     S.header_codec_rules(ctx)
+    S.c01_r2_grow(ctx)
